@@ -34,8 +34,10 @@ esac
 case "$ID" in
   C14|C13|C09|C20)
     # instrument the working tree's server package and build the scheduler harness with the overlay
-    FILES="server/job.go server/server.go server/wrapped_http/serve_mux.go"
-    if [ "$ID" = C13 ]; then FILES="$FILES prover/marshal.go prover/insertion_proving_system.go prover/deletion_proving_system.go"; fi
+    # listed files at statement level; every other file of these packages (also files a changed tree adds)
+    # at function-entry level
+    FILES="server/job.go server/server.go server/wrapped_http/serve_mux.go server server/wrapped_http"
+    if [ "$ID" = C13 ]; then FILES="$FILES prover/marshal.go prover/insertion_proving_system.go prover/deletion_proving_system.go prover"; fi
     if ! go build -C "$HERE" -modfile="$SCRATCH/go.mod" -o "$BIN/instrument" ./cmd/instrument 2> "$SCRATCH/build3.log"; then
       cat "$SCRATCH/build3.log" >&2; echo "HARNESS-ERROR property=$ID instrumenter does not build" >&2; exit 2
     fi
